@@ -12,7 +12,7 @@ from .. import mir
 from ..mir import short, last, strip, walk, norm, is_call
 from . import common, c08, c16
 
-LEVEL = "other"
+LEVEL = "translation_validation"
 
 
 def impl_methods_of(cg, trait_last, self_last):
@@ -124,3 +124,8 @@ def run(cx, chk):
     for old, new in (("C08.thread", "C13.thread"), ("C08.flag", "C13.flag")):
         if old in chk.rules:
             chk.rules[new] = chk.rules.pop(old)
+    # twins: the grammar using `>Rule` and the one with the parenthesised body written in place
+    from . import lift_rules
+    incl = ["ISeq", "IChoice", "IChoice1", "IOpt", "IOpt1", "IClos", "IClos1", "INested", "INoField", "ITwice", "INoSkip",
+            "ISkipIncludesTight", "ITightIncludesSkip", "IPos", "IMemo", "ILook", "Nested"]
+    lift_rules.check_twin(cx, chk, "C13.twin", "corpus:include_a", "corpus:include_b", "include vs body-in-place", rules=incl, floor=len(incl))
